@@ -54,6 +54,25 @@ theorem Val.noEnum_eq_good (v : Val) : v.NoEnum = v.Good true := rfl
 def Env.Plain (env : Env) : Bool := Val.TagsAllF (fun t => t != .nil) false env
 def Env.NoEnum (env : Env) : Bool := Val.TagsAllF (fun t => t != .enum) true env
 
+mutual
+/-- every number inside is a valid `json.Number` or a Go integer, and there is no foreign value -/
+def Val.Marshalable : Val → Bool
+  | .num (.jnum t) => Json.isValidNumber t
+  | .num (.int _ _) => true
+  | .num _ => false
+  | .arr _ xs => Val.MarshalableL xs
+  | .obj kvs => Val.MarshalableF kvs
+  | .foreign _ => false
+  | _ => true
+def Val.MarshalableL : List Val → Bool
+  | [] => true
+  | v :: vs => Val.Marshalable v && Val.MarshalableL vs
+def Val.MarshalableF : List (Bytes × Val) → Bool
+  | [] => true
+  | (_, v) :: kvs => Val.Marshalable v && Val.MarshalableF kvs
+end
+
+
 /-! ## Predicates on nodes -/
 
 mutual
